@@ -37,7 +37,7 @@ def main():
     for kv in sys.argv[3:]:
         k, v = kv.split("=", 1)
         opt[k] = v
-    d = os.path.join(driver.OUT, "attack-" + w)
+    d = os.path.join(driver.OUT, "attack-" + w.split(",")[0] + dict(kv.split("=", 1) for kv in sys.argv[3:]).get("suffix", ""))
     shutil.rmtree(d, ignore_errors=True)
     os.makedirs(d)
     timed = opt["timed"] == "1"
@@ -131,12 +131,13 @@ def main():
         steps.append(st)
     voters = [x for x in opt["InitVoters"].split(",") if x]
     extra = [x for x in opt["Node"].split(",") if x and x not in voters]
-    sc = {"name": "atk-" + w + opt.get("suffix", ""), "family": family, **({"heal_keep_down": opt["keepdown"].split(",")} if opt["keepdown"] else {}), "attack": w, "violates": m.group(1), "voters": voters, "extra": extra, "controlled": True, "auto": False,
+    w0 = w.split(",")[0]
+    sc = {"name": "atk-" + w0 + opt.get("suffix", ""), "family": family, **({"snap_window": True} if "Env:SnapWindow" in w else {}), **({"heal_keep_down": opt["keepdown"].split(",")} if opt["keepdown"] else {}), "attack": w, "violates": m.group(1), "voters": voters, "extra": extra, "controlled": True, "auto": False,
           "heal": True, "heal_et": 60, "spec": steps, **({"tick_ms": 1000, "et_ms": 1000 * int(opt["E"]), "lease_ms": 1000 * int(opt["L"])} if timed else {}),
           "comment": "TLC counterexample (%s, %s) of Raft.tla with W = {%s}; constants %s" % (opt["mode"], m.group(1), w,
                      {k: opt[k] for k in ("Node", "InitVoters", "MaxTerm", "MaxTimer", "MaxAE", "MaxCrash", "MaxHalf", "AsyncKinds") + (("E", "L", "D") if timed else ())})}
     os.makedirs(os.path.join(ROOT, "corpus", family), exist_ok=True)
-    path = os.path.join(ROOT, "corpus", family, "atk-%s%s.json" % (w, opt.get("suffix", "")))
+    path = os.path.join(ROOT, "corpus", family, "atk-%s%s.json" % (w0, opt.get("suffix", "")))
     json.dump(sc, open(path, "w"), indent=0)
     print("%s: %d-step counterexample of %s in %.0fs -> %s" % (w, len(steps), m.group(1), time.time() - t0, path))
     print("   ", " ".join("%s(%s%s)" % (s["a"], s["n"], "," + s["p"] if s["p"] != s["n"] else "") for s in steps))
